@@ -120,6 +120,10 @@ class GridFlow(WidgetWrap[Pile], WidgetContainerMixin, WidgetContainerListConten
         self._cache_maxcol = None
         super()._invalidate()
 
+    def selectable(self) -> bool:
+        """Selectable exactly when one of the cells is (the cached display widget may be stale after an edit)."""
+        return any(w.selectable() for w, _options in self.contents)
+
     def _contents_modified(
         self,
         _slc: tuple[int, int, int],
